@@ -966,9 +966,37 @@ func init() {
 		re := nativeOf(a[0]).(*regexp.Regexp)
 		s, ok := a[1].(string)
 		if !ok {
-			// contract: on symbolic text the matcher is opaque; a free choice between
-			// "no match" and "unsupported" would be unsound, so decline
-			panic(unsupported{"FindAllStringSubmatch on symbolic text"})
+			// symbolic text: leftmost-first backtracking over the compiled program,
+			// every byte test is a decision
+			i := fr.i
+			bs := strBytes(a[1])
+			limit := int(asInt64(a[2]))
+			var out []value
+			pos := 0
+			for pos <= len(bs) && (limit < 0 || len(out) < limit) {
+				caps := i.regexFindSubmatchIndex(re, bs, pos)
+				if caps == nil {
+					break
+				}
+				groups := make([]value, len(caps)/2)
+				for g := range groups {
+					if caps[2*g] >= 0 && caps[2*g+1] >= 0 {
+						groups[g] = mkStr(append([]value{}, bs[caps[2*g]:caps[2*g+1]]...))
+					} else {
+						groups[g] = ""
+					}
+				}
+				out = append(out, groups)
+				if caps[1] == caps[0] {
+					pos = caps[1] + 1
+				} else {
+					pos = caps[1]
+				}
+			}
+			if out == nil {
+				return []value(nil)
+			}
+			return out
 		}
 		return nativeToValue(re.FindAllStringSubmatch(s, int(asInt64(a[2]))))
 	})
